@@ -1,8 +1,219 @@
-/- Driver handler owned by property C03: `c03 <args…>` requests. -/
+/- Driver handler owned by property C03: `c03 <args…>` requests.
+
+   `c03 check <nums…>`  → `ok <blocks>` | `reject <block> <reason> <var> <def-block> <status> <is-aggregate-temp> <is-call-argument>` | `bad-dump`
+   `c03 lean <nums…>`   → the item as a Lean term (one line)
+   `c03 exec <fuel> <oracle,…> <nums…>` → concrete run of the token semantics from
+        `initC` (all parameter variants 0): `done <var>` | `fail <err>` | `running <label>`
+   The numeric grammar is documented in `src/verif_hooks/c03.rs`. -/
 import Driver.Util
+import RotoV.Model.Mir
 
 namespace Driver.C03
+open RotoV.Mir
 
-def handle (_args : List String) : String := "bad-op"
+abbrev P := StateT (List Nat) Option
+
+def nat : P Nat := do
+  match (← get) with
+  | n :: rest => set rest; pure n
+  | [] => failure
+
+partial def many {α} (n : Nat) (p : P α) : P (List α) :=
+  if n = 0 then pure [] else do
+    let x ← p
+    let xs ← many (n - 1) p
+    pure (x :: xs)
+
+def counted {α} (p : P α) : P (List α) := do
+  let n ← nat
+  many n p
+
+def pType : P TyDef := do
+  let nd ← nat
+  let tag ← nat
+  match tag with
+  | 0 => pure ⟨nd != 0, .opaque⟩
+  | 1 => do let fs ← counted nat; pure ⟨nd != 0, .record fs⟩
+  | 2 => do let vs ← counted (counted nat); pure ⟨nd != 0, .enum vs⟩
+  | _ => failure
+
+def pProj : P Proj := do
+  match (← nat) with
+  | 0 => do pure (.fld (← nat))
+  | 1 => do let v ← nat; let i ← nat; pure (.vfld v i)
+  | _ => failure
+
+def pPlace : P Place := do
+  let v ← nat
+  let ps ← counted pProj
+  pure ⟨v, ps⟩
+
+def pVal : P Val := do
+  match (← nat) with
+  | 0 => pure .lit
+  | 1 => pure .global
+  | 2 => do pure (.clone (← pPlace))
+  | 3 => do pure (.move (← nat))
+  | 4 => do pure (.read (← counted nat))
+  | 5 => do pure (.call (← counted (do let v ← nat; let t ← nat; pure (v, t))))
+  | 6 => do pure (.disc (← nat))
+  | _ => failure
+
+def pInstr : P Instr := do
+  match (← nat) with
+  | 0 => do let to ← pPlace; let ty ← nat; let v ← pVal; pure (.assign to ty v)
+  | 1 => do let v ← nat; let ty ← nat; let k ← nat; pure (.setDisc v ty k)
+  | 2 => do let p ← pPlace; let ty ← nat; pure (.drop p ty)
+  | _ => failure
+
+def pTerm : P Term := do
+  match (← nat) with
+  | 0 => do pure (.jump (← nat))
+  | 1 => do
+    let v ← nat
+    let brs ← counted (do let k ← nat; let l ← nat; pure (k, l))
+    let has ← nat
+    if has = 0 then pure (.switch v brs none) else do pure (.switch v brs (some (← nat)))
+  | 2 => do pure (.ret (← nat))
+  | _ => failure
+
+def pBlock : P Block := do
+  let l ← nat
+  let is ← counted pInstr
+  let t ← pTerm
+  pure ⟨l, is, t⟩
+
+def pItem : P Item := do
+  let types ← counted pType
+  let vars ← counted nat
+  let params ← counted nat
+  let retTy ← nat
+  let blocks ← counted pBlock
+  pure ⟨types, vars, params, retTy, blocks⟩
+
+def parseItem (ws : List String) : Option Item := do
+  let ns ← ws.mapM String.toNat?
+  match pItem.run ns with
+  | some (it, []) => some it
+  | _ => none
+
+def oneLine (s : String) : String :=
+  String.ofList (s.toList.map (fun c => if c = '\n' then ' ' else c))
+
+def showSt : ASt → String
+  | .un => "-"
+  | .whole => "W"
+  | .empty => "e"
+  | .part d fs => s!"P{d}{fs}"
+  | .holed p => s!"H{p.length}"
+
+/-- debugging aid: abstract states instruction by instruction for one block -/
+def traceBlock (it : Item) (a : AState) (is : List Instr) : String :=
+  let rec go (a : AState) (is : List Instr) (n : Nat) (acc : String) : String :=
+    match is with
+    | [] => acc
+    | i :: rest =>
+      match aInstr it a i with
+      | .ok a' => go a' rest (n + 1) (acc ++ s!" | {n}:" ++ String.join (a'.map showSt))
+      | .error e => acc ++ s!" | {n}: ERR {errName e} at {oneLine (toString (repr i))}"
+  go a is 0 (String.join (a.map showSt))
+
+/-- the variable an abstract instruction error is about (diagnostics only) -/
+def culprit (it : Item) (a : AState) : Instr → Nat
+  | .drop p _ => p.var
+  | .setDisc v _ _ => v
+  | .assign to _ (.move w) => if aget a w = .whole ∨ aget a w = .empty then to.var else w
+  | .assign to _ (.clone p) => if aget a p.var = .whole ∨ aget a p.var = .empty then to.var else p.var
+  | .assign to _ (.call args) =>
+    match args.find? (fun (w, pty) => it.ndB pty && !(aget a w = .whole ∨ aget a w = .empty)) with
+    | some (w, _) => w
+    | none => to.var
+  | .assign to _ _ => to.var
+
+/-- label of the first block that writes variable `v` -/
+def defBlock (it : Item) (v : Nat) : Nat :=
+  match it.blocks.find? (fun b => b.instrs.any fun
+      | .assign to _ _ => to.var = v
+      | .setDisc w _ _ => w = v
+      | _ => false) with
+  | some b => b.label
+  | none => 999999
+
+/-- `<var> <defining block> <status>` of the variable a rejection is about -/
+def detail (it : Item) (l : Nat) (reason : String) (a other : AState) : String :=
+  let isAgg (v : Nat) : Bool := it.blocks.any fun b => b.instrs.any fun
+    | .assign to _ _ => to.var = v && !to.proj.isEmpty
+    | .setDisc w _ _ => w = v
+    | _ => false
+  let isArg (v : Nat) : Bool := it.blocks.any fun b => b.instrs.any fun
+    | .assign _ _ (.call args) => args.any (fun p => p.1 = v)
+    | _ => false
+  let fmt (v : Nat) (st : String) :=
+    s!"{v} {defBlock it v} {st} {if isAgg v then 1 else 0} {if isArg v then 1 else 0}"
+  if reason = "join" then
+    match (List.range a.length).find? (fun v => (joinSt (aget a v) (aget other v)).isNone) with
+    | some v => fmt v (showSt (aget a v) ++ "/" ++ showSt (aget other v))
+    | none => "- - - 0 0"
+  else match it.findBlock l with
+    | none => "- - - 0 0"
+    | some b =>
+      let rec go (a : AState) : List Instr → String
+        | [] =>
+          -- the terminator failed: a leak at return
+          let rv := match b.term with | .ret v => some v | _ => none
+          match (List.range a.length).find? (fun v => some v ≠ rv ∧ aget a v ≠ .un ∧ aget a v ≠ .empty) with
+          | some v => fmt v (showSt (aget a v))
+          | none => match rv with
+            | some v => fmt v (showSt (aget a v))
+            | none => "- - - 0 0"
+        | i :: rest =>
+          match aInstr it a i with
+          | .ok a' => go a' rest
+          | .error _ => let v := culprit it a i; fmt v (showSt (aget a v))
+      go a b.instrs
+
+def handle (args : List String) : String :=
+  match args with
+  | "check" :: ws =>
+    match parseItem ws with
+    | none => "bad-dump"
+    | some it =>
+      match analyse it with
+      | .ok cert => s!"ok {cert.length}"
+      | .reject l r a o => s!"reject {l} {r} {detail it l r a o}"
+  | "trace" :: ws =>
+    match parseItem ws with
+    | none => "bad-dump"
+    | some it =>
+      match propagate it (8 * edgeCount it) [(entryLabel it, initA it)] [] with
+      | .ok cert => "ok " ++ " ;; ".intercalate (cert.reverse.map fun (l, a) =>
+          match it.findBlock l with
+          | some b => s!"B{l}: " ++ traceBlock it a b.instrs
+          | none => s!"B{l}: ?")
+      | .reject l r a _ => s!"reject {l} {r} :: " ++
+          (match it.findBlock l with
+           | some b => traceBlock it a b.instrs
+           | none => "?")
+  | "cert" :: ws =>
+    match parseItem ws with
+    | none => "bad-dump"
+    | some it =>
+      match analyse it with
+      | .ok cert => oneLine (toString (repr cert))
+      | .reject _ _ _ _ => "[]"
+  | "lean" :: ws =>
+    match parseItem ws with
+    | none => "bad-dump"
+    | some it => oneLine (toString (repr it))
+  | "exec" :: fuel :: orc :: ws =>
+    match parseItem ws, fuel.toNat?, (orc.splitOn ",").mapM String.toNat? with
+    | some it, some n, some os =>
+      let ω : Oracle := fun i => os.getD i 0
+      match runN it ω n (entryLabel it) (initC it (fun _ => 0)) with
+      | .done _ v => s!"done {v}"
+      | .fail e => s!"fail {errName e}"
+      | .running l _ => s!"running {l}"
+    | _, _, _ => "bad-dump"
+  | _ => "bad-op"
 
 end Driver.C03
